@@ -114,7 +114,7 @@ def report(chk, pid, bit, cases, extra, key, sig_fn=None, limit=12):
     relevant = [(i, c, o) for i, c, o in bad if c & want]
     relevant.sort(key=lambda t: (0 if t[1] & bit else 1, len(cases[t[0]]["ops"])))
     reported = set()
-    for i, code, obs in relevant[:limit]:
+    for i, code, obs in relevant[:limit if chk.tier != "quick" else min(limit, 4)]:
         mask = code & bit if code & bit else 1
         small = ic.shrink_case(pid, cases[i], mask)
         sig = (sig_fn or inst_check.signature)(small, mask)
